@@ -144,6 +144,8 @@ def _anc(n):
 
 
 def run(ctx: Ctx) -> None:
+    from .c11 import rule_inverse_blocks
+    rule_inverse_blocks(ctx)
     from ..rules import memo as _memo
     _memo.rule_memo_sound(ctx, ['graphiq/backends/stabilizer/functions/metric.py', 'graphiq/backends/stabilizer/functions/stabilizer.py', 'graphiq/backends/stabilizer/tableau.py', 'graphiq/backends/stabilizer/clifford_tableau.py'])
     rule_eq_fields(ctx)
